@@ -367,6 +367,11 @@ class Esc:
                     return [], 'bytes.decode'
                 if f.attr == 'readexactly':
                     return [], 'asyncio.StreamReader.readexactly'
+                if f.attr in ('read', 'readline', 'readuntil') and 'reader' in ast.unparse(f.value):
+                    return [], 'asyncio.StreamReader.read'
+                if f.attr in ('has_node', 'has_key', 'has_subtrie') and isinstance(f.value, ast.Attribute) \
+                        and (m, f.value.attr) in TRIE_VALUES:
+                    return [], 'safe'      # pygtrie predicates: total
                 if f.attr == 'fromhex' and isinstance(f.value, ast.Name) and f.value.id in ('bytes', 'bytearray'):
                     return [], f.value.id + '.fromhex'
                 rt = type_of(f.value)
